@@ -3,6 +3,7 @@ import ClipperVerif.Driver.C18
 import ClipperVerif.Driver.Region
 import ClipperVerif.Driver.C05
 import ClipperVerif.Driver.C02
+import ClipperVerif.Driver.Ael
 namespace Clipper.Driver
 open Clipper.Proto
 
@@ -11,7 +12,8 @@ def handlers : List (String → Option (P String)) := [
   C18.handle,
   Region.handle,
   C05.handle,
-  C02.handle
+  C02.handle,
+  Ael.handle
 ]
 
 def dispatch (cmd : String) : Option (P String) :=
